@@ -176,7 +176,13 @@ def check(case, rec):
                         "%r and %r did not raise TableException" %
                         (smode, omode, snaps[0], snaps[1]))
     held = list(other) if case["form"] == "list" else None
-    r = a.merge(other, **kw)
+    if len(snaps[0]["obs"]) % 2 and "sample_metadata_f" in kw:
+        # merge(other, sample, observation, sample_metadata_f,
+        #       observation_metadata_f), positionally
+        r = a.merge(other, kw["sample"], kw["observation"],
+                    kw["sample_metadata_f"], kw["observation_metadata_f"])
+    else:
+        r = a.merge(other, **kw)
     if held is not None and (len(held) != len(other) or any(
             x is not y for x, y in zip(held, other))):
         raise Violation("operand-list-modified", "merge changed the list of "
